@@ -33,7 +33,50 @@ def run_files(index):
     return out
 
 
+def loop_carried(index, rep):
+    """a container created before a loop over simulations / countries, changed inside the loop and handed to the run started in the same
+    iteration carries one iteration's entries into the next (options of simulation k reach simulation k+1)"""
+    rule = "C14.FRESH"
+    YAMLF = "src/scenarios/run_scenarios_from_yaml.py"
+    drivers = [(YAMLF, "run_scenarios_from_yaml"), (RMNT, "ScenarioRunnerNoTrade.run_model_no_trade")]
+    MUT = ("update", "append", "extend", "setdefault", "pop", "clear", "insert", "remove", "add", "discard", "popitem")
+    for rel, q in drivers:
+        fn = index.func(rel, q)
+        bad = []
+        n_loops = 0
+        for lp in [n for n in walk_no_nested(fn) if isinstance(n, ast.For)]:
+            n_loops += 1
+            before = {}
+            for st in walk_no_nested(fn):
+                if isinstance(st, ast.Assign) and len(st.targets) == 1 and isinstance(st.targets[0], ast.Name) and st.lineno < lp.lineno \
+                        and not any(st is x for x in ast.walk(lp)):
+                    v = st.value
+                    if isinstance(v, (ast.Dict, ast.List, ast.Set)) or (isinstance(v, ast.Call) and (dotted(v.func) or "") in ("dict", "list", "set")):
+                        before[st.targets[0].id] = st
+            for name, st0 in before.items():
+                fresh_in_loop = any(isinstance(s_, ast.Assign) and any(isinstance(t, ast.Name) and t.id == name for t in s_.targets) for s_ in ast.walk(lp))
+                if fresh_in_loop:
+                    continue
+                changed = [s_ for s_ in ast.walk(lp) if (isinstance(s_, (ast.Assign, ast.AugAssign)) and any(
+                    isinstance(t, ast.Subscript) and isinstance(t.value, ast.Name) and t.value.id == name
+                    for t in (s_.targets if isinstance(s_, ast.Assign) else [s_.target]))) or (
+                    isinstance(s_, ast.Call) and isinstance(s_.func, ast.Attribute) and s_.func.attr in MUT and isinstance(s_.func.value, ast.Name)
+                    and s_.func.value.id == name)]
+                handed = [c for c in ast.walk(lp) if isinstance(c, ast.Call) and not (isinstance(c.func, ast.Attribute) and isinstance(c.func.value, ast.Name)
+                                                                                    and c.func.value.id == name)
+                          and (dotted(c.func) or "") not in ("print", "len", "str", "sorted", "list", "dict", "set", "enumerate", "zip", "range")
+                          and any(isinstance(a_, ast.Name) and a_.id == name for a_ in list(c.args) + [k.value for k in c.keywords])]
+                if changed and handed:
+                    bad.append(f"`{name}` (created line {st0.lineno}, changed line {changed[0].lineno}, handed to {norm_src(handed[0].func)[:40]} line {handed[0].lineno})")
+        rep.check(not bad, rule, f"{q}: nothing carried from one iteration's run into the next",
+                  "a container made before the loop is changed in every iteration and handed to the run of that iteration - entries set for one "
+                  "simulation / country are still there for the next: " + "; ".join(bad), loc=loc(rel, fn))
+        if n_loops < 1:
+            raise AnalysisError(f"{q}: no loop found")
+
+
 def run(index, rep):
+    rep.guard(loop_carried, index, rep)
     rep.guard(state, index, rep)
     rep.guard(reset, index, rep)
     rep.guard(fresh, index, rep)
@@ -220,6 +263,38 @@ def shared_container_writes(index, rel):
                     dv = dotted(s.value) or ""
                     if (dv == short and kind == "module" and not shadows) or (dv.endswith("." + short) and kind == "class"):
                         aliases.add(s.targets[0].id)
+            # one-level copies (`dict(X)`, `X.copy()`, `list(X)`, `copy.copy(X)`, `{**X}`) of a shared container whose values are containers
+            # themselves: the inner objects are still the shared ones - a store two subscripts deep writes into them
+            nested_shared = isinstance(st.value, (ast.Dict, ast.List)) and any(
+                isinstance(v_, (ast.Dict, ast.List, ast.Set)) for v_ in (st.value.values if isinstance(st.value, ast.Dict) else st.value.elts))
+            shallow = set()
+            if nested_shared:
+                for s in walk_no_nested(fn):
+                    if isinstance(s, ast.Assign) and len(s.targets) == 1 and isinstance(s.targets[0], ast.Name):
+                        v_ = s.value
+                        src_ = None
+                        if isinstance(v_, ast.Call) and (dotted(v_.func) or "") in ("dict", "list", "copy.copy") and len(v_.args) == 1:
+                            src_ = v_.args[0]
+                        elif isinstance(v_, ast.Call) and isinstance(v_.func, ast.Attribute) and v_.func.attr == "copy" and not v_.args:
+                            src_ = v_.func.value
+                        elif isinstance(v_, ast.Dict) and len(v_.keys) == 1 and v_.keys[0] is None:
+                            src_ = v_.values[0]
+                        dv = dotted(src_) or "" if src_ is not None else ""
+                        if dv and ((dv == short and kind == "module" and not shadows) or (dv.endswith("." + short) and kind == "class")):
+                            shallow.add(s.targets[0].id)
+                for s in walk_no_nested(fn):
+                    if isinstance(s, (ast.Assign, ast.AugAssign)):
+                        for t in (s.targets if isinstance(s, ast.Assign) else [s.target]):
+                            depth_, base = 0, t
+                            while isinstance(base, ast.Subscript):
+                                base, depth_ = base.value, depth_ + 1
+                            if depth_ >= 2 and isinstance(base, ast.Name) and base.id in shallow:
+                                bad.append(f"{fn.name}:{s.lineno} (through a one-level copy)")
+                    if isinstance(s, ast.Call) and isinstance(s.func, ast.Attribute) and s.func.attr in (
+                            "append", "extend", "update", "pop", "clear", "insert", "remove", "setdefault", "sort", "add", "discard"):
+                        b_ = s.func.value
+                        if isinstance(b_, ast.Subscript) and isinstance(b_.value, ast.Name) and b_.value.id in shallow:
+                            bad.append(f"{fn.name}:{s.lineno} (through a one-level copy)")
             for s in walk_no_nested(fn):
                 if isinstance(s, ast.AugAssign) and isinstance(s.target, ast.Name) and s.target.id in aliases:
                     # in place for arrays, lists, sets and dicts: the shared object itself changes - if the name can still stand for it here
